@@ -442,6 +442,117 @@ func (g *gen) runSeq(tag string, seed int64, initial []hmode, ops []hop, nows []
 	})
 }
 
+// ---- streams ----
+
+type hmev struct {
+	Type string `json:"type"`
+	Old  *hmode `json:"old"`
+	New  *hmode `json:"new"`
+}
+
+func (e hmev) coq() string {
+	switch e.Type {
+	case "ADD":
+		return vcoq.App("MAdd", e.New.coq())
+	case "UPDATE":
+		return vcoq.App("MUpdate", e.Old.coq(), e.New.coq())
+	case "REMOVE":
+		return vcoq.App("MRemove", e.Old.coq())
+	}
+	return "(MBAD)" // does not type-check: reported as a case file that does not evaluate
+}
+
+const sentinel = "~end"
+
+// runStream executes ops on a fresh model with PullModes and PullActiveMode subscribed (with
+// back-pressure) before the first operation and emits one KStream case.  The end of the streams is
+// found with a sentinel mode that is added and made active after the last operation.
+func (g *gen) runStream(seed int64, initial []hmode, ops []hop, nows []int64) {
+	s := newSut(seed, initial)
+	ctx, cancel := context.WithCancel(context.Background())
+	defer cancel()
+	var stray []string
+	mch := s.model.PullModes(ctx, resource.WithBackpressure(true))
+	ach := s.model.PullActiveMode(ctx, resource.WithBackpressure(true))
+	mdone := make(chan []hmev, 1)
+	adone := make(chan []hmode, 1)
+	go func() {
+		var evs []hmev
+		for c := range mch {
+			e := hmev{Type: c.Type.String()}
+			if c.OldValue != nil {
+				m := fromPB(c.OldValue, &stray)
+				e.Old = &m
+			}
+			if c.NewValue != nil {
+				m := fromPB(c.NewValue, &stray)
+				e.New = &m
+			}
+			if e.New != nil && e.New.ID == sentinel {
+				break
+			}
+			evs = append(evs, e)
+		}
+		mdone <- evs
+	}()
+	go func() {
+		var evs []hmode
+		var sink []string
+		for c := range ach {
+			m := fromPB(c.ActiveMode, &sink)
+			if m.ID == sentinel {
+				break
+			}
+			evs = append(evs, m)
+		}
+		adone <- evs
+	}()
+	steps := make([]string, len(ops))
+	jsteps := make([]any, len(ops))
+	tags := []string{"stream"}
+	go func() {
+		for i, o := range ops {
+			s.clk.set(nows[i])
+			_, _, gid := s.call(o)
+			o.Gen = gid
+			steps[i] = "(" + vcoq.Z(nows[i]) + ", " + coqOp(o) + ")"
+			jsteps[i] = map[string]any{"now": nows[i], "op": o}
+		}
+		s.call(hop{Kind: "Add", Mode: &hmode{ID: sentinel}})
+		s.call(hop{Kind: "Change", ID: sentinel})
+	}()
+	var mev []hmev
+	var aev []hmode
+	for got := 0; got < 2; {
+		select {
+		case mev = <-mdone:
+			got++
+		case aev = <-adone:
+			got++
+		case <-time.After(20 * time.Second):
+			g.o.Directs = append(g.o.Directs, vcoq.Direct{
+				What:   "PullModes/PullActiveMode did not deliver the events of a sequence within 20 s",
+				Class:  "c19-blocked",
+				Replay: map[string]any{"initial": initial, "ops": ops},
+			})
+			return
+		}
+	}
+	ms := make([]string, len(mev))
+	for i, e := range mev {
+		ms[i] = e.coq()
+		tags = append(tags, "mev:"+e.Type)
+	}
+	coq := vcoq.App("KStream", coqModes(initial), vcoq.List(steps), vcoq.List(ms), coqModes(aev))
+	g.o.Add(vcoq.Case{
+		Coq:        coq,
+		JSON:       map[string]any{"kind": "stream", "rng_seed": seed, "initial": initial, "steps": jsteps, "modes_events": mev, "active_events": aev},
+		Key:        coq,
+		NonTrivial: len(mev) > len(initial) || len(aev) > 1,
+		Tags:       tags,
+	})
+}
+
 func (g *gen) nows(n int) []int64 {
 	out := make([]int64, n)
 	t := int64(1000)
@@ -616,15 +727,117 @@ func (g *gen) runConc(seed int64, nthreads, perThread int) {
 	})
 }
 
+// ---- races: two or three calls started together, many times ----
+//
+// Each scenario pits calls against each other whose bodies must not interleave (check-then-act on
+// the active mode / on the normal mode).  Runs that end the same way (same results, same real-time
+// order, same final state) are emitted once.
+type scenario struct {
+	name    string
+	initial []hmode
+	active  string // made active before the race
+	calls   []hop
+}
+
+func scenarios() []scenario {
+	a := hmode{ID: "a", Title: "t1", Normal: true}
+	b := hmode{ID: "b", Title: "t2"}
+	c := hmode{ID: "c"}
+	return []scenario{
+		{"change-vs-delete", []hmode{a, b}, "a", []hop{{Kind: "Change", ID: "b"}, {Kind: "Delete", ID: "b"}}},
+		{"setactive-vs-delete", []hmode{a, b}, "a", []hop{{Kind: "SetActive", Mode: &hmode{ID: "b"}}, {Kind: "SDelete", ID: "b"}}},
+		{"clear-vs-delete", []hmode{a, b}, "b", []hop{{Kind: "SClear"}, {Kind: "Delete", ID: "a"}}},
+		{"add-vs-add-normal", []hmode{b}, "", []hop{{Kind: "Add", Mode: &hmode{ID: "c", Normal: true}}, {Kind: "Add", Mode: &hmode{ID: "d", Normal: true}}}},
+		{"update-vs-add-normal", []hmode{b}, "", []hop{{Kind: "SUpdate", Mode: &hmode{ID: "b", Normal: true}, Mask: []string{"normal"}}, {Kind: "SCreate", Mode: &hmode{Normal: true}}}},
+		{"update-vs-update-normal", []hmode{b, c}, "", []hop{{Kind: "Update", Mode: &hmode{ID: "b", Normal: true}, NoMsk: true}, {Kind: "Update", Mode: &hmode{ID: "c", Normal: true}, NoMsk: true}}},
+		{"change-vs-delete-vs-change", []hmode{a, b, c}, "a", []hop{{Kind: "SChange", ID: "b"}, {Kind: "Delete", ID: "b"}, {Kind: "Change", ID: "c"}}},
+	}
+}
+
+func (g *gen) races(iter int) {
+	for _, sc := range scenarios() {
+		seen := map[string]int{}
+		order := []string{}
+		cases := map[string]vcoq.Case{}
+		for it := 0; it < iter; it++ {
+			s := newSut(7, sc.initial)
+			s.clk.set(1500)
+			pre := []hcop{}
+			if sc.active != "" {
+				code, ret, _ := s.call(hop{Kind: "Change", ID: sc.active})
+				pre = append(pre, hcop{Op: hop{Kind: "Change", ID: sc.active}, Inv: 0, Resp: 1, Code: code, Ret: ret})
+			}
+			n := len(sc.calls)
+			res := make([]hcop, n)
+			var ctr atomic.Int64
+			ctr.Store(1)
+			var ready atomic.Int32
+			var wg sync.WaitGroup
+			for t := 0; t < n; t++ {
+				wg.Add(1)
+				go func(t int) {
+					defer wg.Done()
+					local := &sut{clk: s.clk, model: s.model, api: s.api, settings: s.settings}
+					o := sc.calls[t]
+					ready.Add(1)
+					for ready.Load() < int32(n) { // spin: start as close together as possible
+					}
+					inv := ctr.Add(1)
+					code, ret, gid := local.call(o)
+					resp := ctr.Add(1)
+					o.Gen = gid
+					res[t] = hcop{Op: o, Inv: inv, Resp: resp, Code: code, Ret: ret}
+				}(t)
+			}
+			fin := make(chan struct{})
+			go func() { wg.Wait(); close(fin) }()
+			select {
+			case <-fin:
+			case <-time.After(20 * time.Second):
+				g.o.Directs = append(g.o.Directs, vcoq.Direct{What: "racing calls did not complete within 20 s (deadlock): " + sc.name, Class: "c19-blocked", Replay: sc})
+				return
+			}
+			final := s.observe(0, nil)
+			th := []string{}
+			all := [][]hcop{}
+			if len(pre) > 0 {
+				all = append(all, pre)
+			}
+			for t := range res {
+				all = append(all, []hcop{res[t]})
+			}
+			for _, t := range all {
+				it := make([]string, len(t))
+				for i, c := range t {
+					it[i] = vcoq.App("mkCop", coqOp(c.Op), vcoq.Z(c.Inv), vcoq.Z(c.Resp), vcoq.Int(c.Code), coqOptMode(c.Ret))
+				}
+				th = append(th, vcoq.List(it))
+			}
+			coq := vcoq.App("KConc", coqModes(sc.initial), vcoq.Z(1500), vcoq.List(th), final.coq())
+			if seen[coq] == 0 {
+				order = append(order, coq)
+				cases[coq] = vcoq.Case{Coq: coq, Key: coq, NonTrivial: true, Tags: []string{"race:" + sc.name},
+					JSON: map[string]any{"kind": "race", "scenario": sc.name, "initial": sc.initial, "now": 1500, "threads": all, "final": final}}
+			}
+			seen[coq]++
+		}
+		for _, k := range order {
+			c := cases[k]
+			c.JSON.(map[string]any)["times_seen"] = seen[k]
+			g.o.Add(c)
+		}
+	}
+}
+
 func genC19(o *vcoq.Out, r *vcoq.Rand, tier string) error {
 	g := &gen{o: o, r: r}
 	o.Header = "From SC Require Import Base.Prelude Electric.Model Electric.C19Judge."
 	o.CaseType = "c19case"
 	o.Judge = "judge"
 	o.Shard = 200
-	nRandom, maxLen, exLen, nConc := 600, 14, 3, 80
+	nRandom, maxLen, exLen, nConc, nStream, nRace := 1500, 14, 3, 150, 500, 2500
 	if tier == "thorough" {
-		nRandom, maxLen, exLen, nConc = 12000, 24, 4, 1600
+		nRandom, maxLen, exLen, nConc, nStream, nRace = 20000, 24, 4, 2500, 8000, 40000
 	}
 	g.exhaustive(exLen)
 	for i := 0; i < nRandom; i++ {
@@ -636,6 +849,15 @@ func genC19(o *vcoq.Out, r *vcoq.Rand, tier string) error {
 		}
 		g.runSeq("random", int64(r.Intn(1<<30)), g.initial(), ops, g.nows(n))
 	}
+	for i := 0; i < nStream; i++ {
+		n := r.Range(1, maxLen)
+		ops := make([]hop, n)
+		for k := range ops {
+			ops[k] = g.randomOp(r.Bool())
+		}
+		g.runStream(int64(r.Intn(1<<30)), g.initial(), ops, g.nows(n))
+	}
+	g.races(nRace)
 	for i := 0; i < nConc; i++ {
 		nt := r.Range(2, 4)
 		per := 3
@@ -644,6 +866,6 @@ func genC19(o *vcoq.Out, r *vcoq.Rand, tier string) error {
 		}
 		g.runConc(int64(r.Intn(1<<30)), nt, per)
 	}
-	o.Rule = fmt.Sprintf("bounded-exhaustive: all %d-operation sequences over a 16-operation alphabet on ids {a,b} (add/create/update with and without masks/delete with and without allow-missing/set-active/change/clear, Model API and servers) from an empty model; random: %d sequences of 1-%d operations over ids {a,b,c,d,zz,\"\"} with 0-3 initial modes, random masks, fake clock advancing 0-50 ns per step, one third Model API only, one third through the servers, one third mixed; concurrent: %d mixes of 2-4 goroutines x 3-5 operations, results + quiescent state checked for linearizability against the model. Non-trivial: at least one operation succeeded. Distinct by the full history term.", exLen, nRandom, maxLen, nConc)
+	o.Rule = fmt.Sprintf("bounded-exhaustive: all %d-operation sequences over a 16-operation alphabet on ids {a,b} (add/create/update with and without masks/delete with and without allow-missing/set-active/change/clear, Model API and servers) from an empty model; random: %d sequences of 1-%d operations over ids {a,b,c,d,zz,\"\"} with 0-3 initial modes, random masks, fake clock advancing 0-50 ns per step, one third Model API only, one third through the servers, one third mixed; streams: %d random sequences with PullModes/PullActiveMode (back-pressure) subscribed first, all events compared; concurrent: %d mixes of 2-4 goroutines x 3-5 operations and 7 race scenarios (check-then-act pairs started together) x %d runs each (distinct outcomes emitted once), results + quiescent state checked for linearizability (program order + real-time order) against the model. Non-trivial: at least one operation succeeded. Distinct by the full history term.", exLen, nRandom, maxLen, nStream, nConc, nRace)
 	return nil
 }
